@@ -23,6 +23,9 @@ type c06Pkt struct {
 	QoS  int  `json:"qos,omitempty"`
 	Flag bool `json:"flag,omitempty"`
 	Fs   []int `json:"fs,omitempty"` // SUBSCRIBE / UNSUBSCRIBE: filter indices ("s/<j>")
+	// SUBSCRIBE: the first filter is lengthened until the packet's Remaining Length is exactly Pad (127, 128, 129, 256:
+	// around the values whose encoding has a byte 0x80)
+	Pad int `json:"pad,omitempty"`
 }
 
 type c06Case struct {
@@ -112,6 +115,9 @@ func (p *c06Prop) Gen(r *Rng, i int, tier string) interface{} {
 				}
 				if pk.QoS == 0 && pk.NF >= 2 && r.Chance(15) {
 					pk.QoS = 2 // the LAST filter begins with $share/
+				}
+				if r.Chance(12) {
+					pk.Pad = []int{127, 128, 129, 256}[r.Intn(4)]
 				}
 			} else {
 				// v5: stay outside known finding C06-unsuback-no-codes: unsubscribe what is subscribed
@@ -257,6 +263,21 @@ func c06Build(ver mqttp.ProtocolVersion, pk c06Pkt, k int) ([]byte, error) {
 			_ = s.PropertySet(mqttp.PropertySubscriptionIdentifier, uint32(7))
 		}
 		raw, err := mqttp.Encode(s)
+		for n := 1; err == nil && pk.Pad > 0 && n < 400; n++ {
+			hdr := 2
+			if len(raw) > 129 {
+				hdr = 3
+			}
+			if len(raw)-hdr >= pk.Pad {
+				break
+			}
+			fs[0] = fmt.Sprintf("s/%d/", pk.Fs[0]) + strings.Repeat("p", n)
+			s = mkSubscribe(ver, uint16(id), fs, ops)
+			if pk.Flag && ver == mqttp.ProtocolV50 {
+				_ = s.PropertySet(mqttp.PropertySubscriptionIdentifier, uint32(7))
+			}
+			raw, err = mqttp.Encode(s)
+		}
 		if err == nil && pk.ID == 0 {
 			raw[2], raw[3] = 0, 0
 		}
